@@ -271,3 +271,97 @@ def repeat_calls(fn, args, kwargs=None, times=3, what=''):
             if s is not None and snapshot(o) != s:
                 return ref, f'{what}: the result of call #{i + 1} was changed by call #{j + 1}'
     return ref, None
+
+
+# ----------------------------------------------------------------------------- prescribed unfolding spectra / input forms
+
+def tt_spectrum(n, s, seed, at=0, hide=True):
+    """TT-tensor with mode sizes n (every n[k] >= len(s)) whose d-1 unfoldings ALL have exactly the singular values s (up
+    to rounding; s non-negative, any order of magnitude, ties / clusters / zeros allowed): the orthogonally decomposable
+    tensor sum_a s[a] u_1^a x u_2^a x ... x u_d^a with orthonormal u_k^a for every k, written with TT-ranks len(s); the
+    weights s sit in core `at`.  hide=True rotates every bond by a random orthogonal matrix (the cores are dense then, the
+    tensor and its spectra stay the same and nothing ill-conditioned is introduced)."""
+    s = np.asarray(s, dtype=float)
+    q, d = len(s), len(n)
+    if any(int(k) < q for k in n):
+        raise ValueError('mode sizes must be >= len(s)')
+    g = rng('tt_spectrum', list(n), list(s), seed, at)
+    Y = []
+    for k in range(d):
+        Q, _ = np.linalg.qr(g.normal(size=(int(n[k]), q)))          # columns u_k^a
+        G = np.zeros((q, int(n[k]), q))
+        for a in range(q):
+            G[a, :, a] = Q[:, a] * (s[a] if k == at else 1.0)
+        Y.append(G)
+    Y[0] = Y[0].sum(axis=0, keepdims=True)                          # (1, n, q): row a of the diagonal structure
+    Y[-1] = Y[-1].sum(axis=2, keepdims=True)                        # (q, n, 1)
+    if hide:
+        for k in range(d - 1):
+            R, _ = np.linalg.qr(g.normal(size=(q, q)))
+            Y[k] = np.einsum('anb,bc->anc', Y[k], R)
+            Y[k + 1] = np.einsum('cb,cnd->bnd', R, Y[k + 1])       # R^T G
+    return Y
+
+
+def call_form(fn, names, values, defaults, form):
+    """Call fn with the argument values `values`, listed in the DOCUMENTED order `names` of its parameters, in one of
+    the call forms a user may write; defaults[k] is the documented default of parameter k (call_form.REQ: required).
+      'pos'    every argument positionally, in the documented order;
+      'kw'     every argument by keyword;
+      'mix:k'  the first k arguments positionally, the others by keyword;
+      'min'    positionally, trailing arguments that equal their documented default are left out;
+      'kwmin'  required arguments positionally, optional ones by keyword and only if they differ from the default.
+    The suite states names / defaults from the documentation, so that a re-ordered or re-defaulted signature shows up as
+    a wrong RESULT against the suite's independent oracle."""
+    names, values, defaults = list(names), list(values), list(defaults)
+    if not (len(names) == len(values) == len(defaults)):
+        raise ValueError('names / values / defaults differ in length')
+
+    def is_default(k):
+        dv, v = defaults[k], values[k]
+        if dv is call_form.REQ or isinstance(v, (np.ndarray, list, tuple, dict)):
+            return False
+        return type(v) is type(dv) and v == dv
+    if form == 'pos':
+        return fn(*values)
+    if form == 'kw':
+        return fn(**dict(zip(names, values)))
+    if form.startswith('mix:'):
+        k = int(form[4:])
+        return fn(*values[:k], **dict(zip(names[k:], values[k:])))
+    if form == 'min':
+        k = len(values)
+        while k > 0 and is_default(k - 1):
+            k -= 1
+        return fn(*values[:k])
+    if form == 'kwmin':
+        k = 0
+        while k < len(values) and defaults[k] is call_form.REQ:
+            k += 1
+        return fn(*values[:k], **{names[j]: values[j] for j in range(k, len(values)) if not is_default(j)})
+    raise ValueError(form)
+
+
+call_form.REQ = object()
+
+
+def typed_int_array(A, dtype):
+    """The integer-valued float array A as an array of the (integer / bool / float32 ...) dtype `dtype`, or None if the
+    values do not fit: unsigned and bool targets get A - min(A) (bool: parity of that), nothing is ever wrapped round."""
+    A = np.asarray(A, dtype=float)
+    if not np.all(A == np.rint(A)):
+        raise ValueError('not integer valued')
+    dt = np.dtype(dtype)
+    if dt.kind == 'b':
+        return (np.rint(A - A.min()).astype(np.int64) & 1).astype(bool)
+    if dt.kind == 'u':
+        A = A - A.min()
+    if dt.kind in 'iu':
+        info = np.iinfo(dt)
+        if A.size and (A.min() < info.min or A.max() > info.max):
+            return None
+        return np.rint(A).astype(dt)
+    B = A.astype(dt)
+    if not np.array_equal(B.astype(float), A):
+        return None
+    return B
